@@ -4,6 +4,7 @@ import Ldlm.Proofs.CoreLock
 import Ldlm.Proofs.CoreMain
 import Ldlm.Proofs.CoreWait
 import Ldlm.Proofs.CorePU
+import Ldlm.Proofs.Threads
 /-!
 C03 — Blocked Lock calls: no lost wake-up, FIFO service, prompt timeout/cancel.
 
@@ -19,6 +20,9 @@ Interleaved (M1, every schedule, any number of threads):
 * `cancelled_never_served` — a waiter that gave up (wait time-out, caller cancel, shutdown) is out of
                             the queue, so no later release can serve it, and it does not delay the
                             others (`cancel_keeps_invariant`: the no-lost-wake-up invariant survives).
+* `gave_up_never_granted` — every schedule of threaded calls (M1t): after a call has returned, nothing is
+                            attributed to its thread until the thread's next invocation - a waiter that gave up is
+                            never granted afterwards.
 Timed (M2, sequential, virtual time):
 * `wait_deadline`         — a blocked call with wait timeout w issued at time t gets the deadline t + w·10⁹.
 * `wait_not_early`        — every `LockWaitTimeout` answer of an advance belongs to a call blocked before it
@@ -69,6 +73,18 @@ theorem fifo_no_overtaking (n : Str) (o o' : Obj) (a : Act) (ev : List AOp) (w :
 theorem fifo_queue_order (n : Str) (as : List Act) (o o' : Obj) (ev : List AOp) (hr : runObj n o as = some (o', ev)) :
     ∃ keep add, o'.q = keep ++ add ∧ keep.Sublist o.q :=
   queue_order n as o o' ev hr
+
+/-- **a waiter that gives up is never granted the lock afterwards** - for every schedule of any number of
+threaded calls (M1t): once a call of thread `t` has returned (a blocked Lock that gave up returns `false`),
+no operation - no grant in particular - is attributed to `t` before `t` invokes a new call -/
+theorem gave_up_never_granted (n : Str) (o : Obj) (as : List Threads.TAct) (s' : Threads.TSt) (tr : List Threads.Ev)
+    (hi : ObjInv o) (hq : o.q = []) (ha : o.acq = []) (hr : Threads.trun n ⟨o, []⟩ as = some (s', tr))
+    (pre post : List Threads.Ev) (t : Tid) (ok : Bool) (h : tr = pre ++ .ret t ok :: post)
+    (p q : List Threads.Ev) (op : AOp) (h2 : post = p ++ .lin t op :: q) : ∃ c, Threads.Ev.inv t c ∈ p := by
+  have hw := (Threads.trun_wf n as _ s' tr (Threads.idle_inv n o hi hq ha) hr).2
+  rw [h] at hw
+  obtain ⟨os', hw'⟩ := Threads.wf_suffix n pre _ _ hw
+  exact Threads.no_lin_after_ret n os' t ok post hw' p q op h2
 
 /-! non-vacuity: two waiters behind a holder; the Unlock hands the unit to the first one, a TryLock is
 refused while the second still waits, and the second is still queued, first in line -/
